@@ -257,7 +257,7 @@ def polar_cases(draw):
 SUBCHECKS = [
     SubCheck('fit', fit_cases(), check_fit,
              'non-trivial = eps >= 0.2 and initial PA more than 0.1 rad off, or '
-             'a fix_* flag set', quick=(16, 6), thorough=(16, 120),
+             'a fix_* flag set', quick=(16, 6), thorough=(16, 400),
              budget_quick=100, budget_thorough=2400),
     SubCheck('to_polar', polar_cases(), check_to_polar,
              'non-trivial = >=2 points compared between scalar and array forms',
